@@ -306,15 +306,41 @@ def reimport_check(p):
     m_ = _call(p.c.to_matrix, ['bib', 'highest_cleared'])
     if m_[0] != 'ret':
         return []
-    r = _call(HighJumpCompetition.from_matrix, m_[1])
-    if r[0] != 'ret' or r[1].state not in ('finished', 'won', 'drawn'):
-        return []          # (whether an import reproduces the competition at all is C08's clause)
-    fj = p.first_jo if p.first_jo is not None and p.first_jo < len(p.c.heights) else None
-    vs = evaluate(r[1], M([str(b) for b in p.bibs], fj), p.hist, p.float_heights, p.observers)
-    for v in vs:
-        v['sig'] = v['sig'] + ['re-imported-card']
-        v['case'] = dict(v['case'], reimport=True)
-    return vs
+    out = []
+    nk = 2
+    plain = [list(row) for row in m_[1]]
+    dressed = [list(row) for row in m_[1]]
+    for i in range(nk, len(dressed[0])):       # the height headers as a pasted sheet may carry them: a stray blank, a plus sign
+        dressed[0][i] = [' %s', '%s ', '+%s', '%s'][i % 4] % dressed[0][i]
+    ref = None
+    for label, mat in (('re-imported-card', plain), ('re-imported-card-dressed-headers', dressed)):
+        r = _call(HighJumpCompetition.from_matrix, mat)
+        if r[0] != 'ret' or r[1].state not in ('finished', 'won', 'drawn'):
+            if label.endswith('dressed-headers') and ref is not None:
+                out.append(V('places-from-cards', ['places', 're-import-differs', 'dressed-headers'], dict(case0(p), reimport=True),
+                             r[:2] if r[0] != 'ret' else r[1].state, 'the competition of the plain card'))
+            continue          # (whether an import reproduces the competition at all is C08's clause)
+        fj = p.first_jo if p.first_jo is not None and p.first_jo < len(p.c.heights) else None
+        vs = evaluate(r[1], M([str(b) for b in p.bibs], fj), p.hist, p.float_heights, p.observers)
+        for v in vs:
+            v['sig'] = v['sig'] + [label]
+            v['case'] = dict(v['case'], reimport=True)
+        out.extend(vs)
+        pl = {str(j.bib): j.place for j in r[1].jumpers}
+        if ref is None:
+            ref = pl
+        elif pl != ref:
+            out.append(V('places-from-cards', ['places', 're-import-differs', 'dressed-headers'], dict(case0(p), reimport=True), pl, ref))
+    return out
+
+
+def case0(p):
+    case = {'kind': 'history', 'bibs': list(p.bibs), 'calls': [hjsearch.enc(x) for x in p.hist]}
+    if p.float_heights:
+        case['float_heights'] = True
+    if p.observers:
+        case['observers'] = True
+    return case
 
 
 def check_decided(ctx, p):
